@@ -178,6 +178,11 @@ public:
 
   T& append(const T& value)
   {
+    if(&value >= _begin.item && &value < _end.item)
+    { // the argument is one of our own elements, which reserve() may relocate
+      T copy(value);
+      return append(copy);
+    }
     usize size = _end.item - _begin.item;
     reserve(size + 1);
     T* item = _end.item;
